@@ -5,17 +5,171 @@ import RoaringModel.Lemmas.BitmapMut
 namespace Roaring
 namespace Bitmap
 
-/-- inherent.rs:229 `insert_range`, any `RangeBounds` shape, any number of chunks spanned -/
-theorem insertRange_spec (b : Bitmap) (h : b.WF) (lo hi : Bound)
-    (hlo : Bound.le u32Max lo) (hhi : Bound.le u32Max hi) :
-    (insertRange b lo hi).1.WF ∧ elems (insertRange b lo hi).1 = (Spec.insertRange u32Max (elems b) lo hi).1 ∧
-    (insertRange b lo hi).2 = (Spec.insertRange u32Max (elems b) lo hi).2 := by
-  sorry
+/-! ### directories written as `init ++ [last]` -/
+theorem elems_append (a b : Bitmap) : elems (a ++ b) = elems a ++ elems b := by
+  simp [elems, List.flatMap_append]
+
+theorem elems_single (c : Container) : elems [c] = c.elems := by simp [elems]
+
+theorem elems_cons (c : Container) (cs : Bitmap) : elems (c :: cs) = c.elems ++ elems cs := by
+  simp [elems]
+
+theorem dir_snoc_iff (init : Bitmap) (c : Container) :
+    Dir (init ++ [c]) ↔ Dir init ∧ (∀ d ∈ init, d.key < c.key) ∧ c.key < 65536 ∧ c.store.Canon := by
+  unfold Dir
+  rw [List.map_append, List.pairwise_append]
+  constructor
+  · rintro ⟨⟨h1, _, h3⟩, h4⟩
+    refine ⟨⟨h1, fun d hd => h4 d (List.mem_append_left _ hd)⟩, ?_, h4 c (by simp)⟩
+    intro d hd; exact h3 d.key (List.mem_map_of_mem hd) c.key (by simp)
+  · rintro ⟨⟨h1, h2⟩, h3, h4, h5⟩
+    refine ⟨⟨h1, by simp, ?_⟩, ?_⟩
+    · intro x hx y hy
+      obtain ⟨d, hd, rfl⟩ := List.mem_map.mp hx
+      simp at hy; subst hy; exact h3 d hd
+    · intro d hd
+      rcases List.mem_append.mp hd with h | h
+      · exact h2 d h
+      · simp at h; subst h; exact ⟨h4, h5⟩
+
+theorem wf_snoc_iff (init : Bitmap) (c : Container) :
+    WF (init ++ [c]) ↔ WF init ∧ (∀ d ∈ init, d.key < c.key) ∧ c.key < 65536 ∧ c.store.Canon ∧
+      c.store.elems ≠ [] := by
+  rw [wf_iff, wf_iff, dir_snoc_iff]
+  constructor
+  · rintro ⟨⟨h1, h2, h3, h4⟩, h5⟩
+    exact ⟨⟨h1, fun d hd => h5 d (List.mem_append_left _ hd)⟩, h2, h3, h4, h5 c (by simp)⟩
+  · rintro ⟨⟨h1, h1'⟩, h2, h3, h4, h5⟩
+    refine ⟨⟨h1, h2, h3, h4⟩, ?_⟩
+    intro d hd
+    rcases List.mem_append.mp hd with h | h
+    · exact h1' d h
+    · simp at h; subst h; exact h5
+
+/-- all values of a directory whose keys are below `K` are below `K * 65536` -/
+theorem elems_lt_of_keys (b : Bitmap) (h : b.Dir) (K : Nat) (hK : ∀ d ∈ b, d.key < K) :
+    ∀ x ∈ elems b, x < K * 65536 := by
+  intro x hx
+  obtain ⟨c, hc, hxc⟩ := (mem_elems_iff_exists b x).mp hx
+  rw [mem_cElems c (Store.canon_inv _ (h.2 c hc).2)] at hxc
+  have := hK c hc
+  omega
+
+/-- appending a container whose last value is `v` -/
+theorem snoc_pushed (init : Bitmap) (hinit : init.WF) (c' : Container) (v : Nat) (l : List Nat)
+    (hk : hi16 v < 65536)
+    (hkey : c'.key = hi16 v) (hcan : c'.store.Canon) (hel : c'.store.elems = l ++ [lo16 v])
+    (hlt : ∀ d ∈ init, d.key < hi16 v) :
+    (init ++ [c']).WF ∧
+      elems (init ++ [c']) = elems init ++ (l.map (fun i => hi16 v * 65536 + i)) ++ [v] := by
+  refine ⟨?_, ?_⟩
+  · rw [wf_snoc_iff]
+    refine ⟨hinit, by rw [hkey]; exact hlt, by rw [hkey]; exact hk, hcan, ?_⟩
+    rw [hel]; simp
+  · rw [elems_append, elems_single]
+    unfold Container.elems
+    rw [hel, hkey, List.map_append, List.append_assoc]
+    have := join_split v
+    simp only [List.map_cons, List.map_nil, this]
 
 /-- inherent.rs:294 `push` -/
 theorem push_spec (b : Bitmap) (h : b.WF) (v : Nat) (hv : v < 4294967296) :
     (push b v).1.WF ∧ elems (push b v).1 = (Spec.push (elems b) v).1 ∧
     (push b v).2 = (Spec.push (elems b) v).2 := by
+  obtain ⟨hk, hl⟩ := split_lt v hv
+  have hjs := join_split v
+  rw [Spec.push_eq _ _ (sorted_elems b h.dir)]
+  -- a fresh container holding just `lo16 v`
+  obtain ⟨f1, f2, _, f4⟩ := Container.push_spec (Container.new (hi16 v)) (Container.new_canon _) (lo16 v) hl
+  rw [Container.new_elems, if_pos (by simp)] at f4
+  have hfresh : ∀ init : Bitmap, init.WF → (∀ d ∈ init, d.key < hi16 v) →
+      (init ++ [(Container.push (Container.new (hi16 v)) (lo16 v)).1]).WF ∧
+      elems (init ++ [(Container.push (Container.new (hi16 v)) (lo16 v)).1]) = elems init ++ [v] := by
+    intro init hi hlt
+    have := snoc_pushed init hi _ v [] hk f1 f2 f4 hlt
+    simpa using this
+  unfold push
+  cases hlast : b.getLast? with
+  | none =>
+    have : b = [] := List.getLast?_eq_none_iff.mp hlast
+    subst this
+    simp only []
+    obtain ⟨w1, w2⟩ := hfresh [] h (by simp)
+    rw [if_pos (by simp [elems])]
+    exact ⟨w1, w2, rfl⟩
+  | some c =>
+    obtain ⟨init, rfl⟩ := List.getLast?_eq_some_iff.mp hlast
+    obtain ⟨hinit, hlt, hck, hcan, hne⟩ := (wf_snoc_iff init c).mp h
+    have hinv := Store.canon_inv _ hcan
+    simp only []
+    by_cases h1 : c.key = hi16 v
+    · rw [if_pos h1, List.dropLast_concat]
+      obtain ⟨p1, p2, p3, p4⟩ := Container.push_spec c hcan (lo16 v) hl
+      have E : (∀ x ∈ elems (init ++ [c]), x < v) ↔ (∀ x ∈ c.store.elems, x < lo16 v) := by
+        constructor
+        · intro H x hx
+          have := H (c.key * 65536 + x) (by
+            rw [elems_append, elems_single]; apply List.mem_append_right
+            exact List.mem_map_of_mem hx)
+          omega
+        · intro H x hx
+          rw [elems_append, elems_single] at hx
+          rcases List.mem_append.mp hx with hx | hx
+          · have := elems_lt_of_keys init hinit.dir c.key hlt x hx
+            unfold hi16 lo16 at *; omega
+          · rw [mem_cElems c hinv] at hx
+            have := H _ hx.2
+            unfold hi16 lo16 at *; omega
+      by_cases hc : ∀ x ∈ c.store.elems, x < lo16 v
+      · rw [if_pos (E.mpr hc)]
+        rw [if_pos hc] at p4
+        obtain ⟨w1, w2⟩ := snoc_pushed init hinit _ v c.store.elems hk (p1.trans h1) p2 p4
+          (fun d hd => h1 ▸ hlt d hd)
+        refine ⟨w1, ?_, by rw [p3]; exact decide_eq_true hc⟩
+        rw [w2, elems_append, elems_single]
+        simp only [Container.elems, h1]
+      · rw [if_neg (fun H => hc (E.mp H))]
+        rw [if_neg hc] at p4
+        refine ⟨?_, ?_, by rw [p3]; exact decide_eq_false hc⟩
+        · rw [wf_snoc_iff]
+          exact ⟨hinit, by rw [p1]; exact hlt, by rw [p1]; exact hck, p2, by rw [p4]; exact hne⟩
+        · simp only [elems_append, elems_single, Container.elems, p1, p4]
+    · rw [if_neg h1]
+      obtain ⟨x0, hx0⟩ : ∃ x0, x0 ∈ c.store.elems := by
+        cases hce : c.store.elems with
+        | nil => exact absurd hce hne
+        | cons a l => exact ⟨a, List.mem_cons_self ..⟩
+      by_cases h2 : c.key > hi16 v
+      · rw [if_pos h2]
+        rw [if_neg]
+        · exact ⟨h, rfl, rfl⟩
+        · intro H
+          have := H (c.key * 65536 + x0) (by
+            rw [elems_append, elems_single]; apply List.mem_append_right
+            exact List.mem_map_of_mem hx0)
+          unfold hi16 lo16 at *; omega
+      · rw [if_neg h2]
+        have h3 : c.key < hi16 v := by omega
+        obtain ⟨w1, w2⟩ := hfresh (init ++ [c]) h (by
+          intro d hd
+          rcases List.mem_append.mp hd with hd | hd
+          · have := hlt d hd; omega
+          · simp at hd; subst hd; exact h3)
+        rw [if_pos]
+        · exact ⟨w1, w2, rfl⟩
+        · intro x hx
+          have := elems_lt_of_keys _ h.dir (hi16 v) (by
+            intro d hd
+            rcases List.mem_append.mp hd with hd | hd
+            · have := hlt d hd; omega
+            · simp at hd; subst hd; exact h3) x hx
+          unfold hi16 lo16 at *; omega
+
+/-- inherent.rs:229 `insert_range`, any `RangeBounds` shape, any number of chunks spanned -/
+theorem insertRange_spec (b : Bitmap) (h : b.WF) (lo hi : Bound)
+    (hlo : Bound.le u32Max lo) (hhi : Bound.le u32Max hi) :
+    (insertRange b lo hi).1.WF ∧ elems (insertRange b lo hi).1 = (Spec.insertRange u32Max (elems b) lo hi).1 ∧
+    (insertRange b lo hi).2 = (Spec.insertRange u32Max (elems b) lo hi).2 := by
   sorry
 
 /-- inherent.rs:317 `push_unchecked`: when the caller's promise holds no debug assertion fires (any `dbg`) -/
